@@ -404,6 +404,8 @@ def check_axis_table(ctx):
 
 # ------------------------------------------------------------------------ C01.3
 def check_eval_discipline(ctx, tag):
+    from . import c05
+
     m = ctx.model
     n = 0
     for q in ("_array_types._check_dims", "_array_types._MetaAbstractArray._check_shape", "_array_types._MetaAbstractArray.__instancecheck_str__"):
@@ -425,8 +427,90 @@ def check_eval_discipline(ctx, tag):
             else:
                 ctx.ok(tag, f.qualname, f"`{short(c, 50)}`: NameError -> AnnotationError")
             # namespaces are copies
+            def _fresh(scope, a, depth=0):
+                """True: a new dict; False: positively a live memo (a parameter / a name bound to one); None: cannot tell"""
+                if isinstance(a, ast.Dict) or isinstance(a, ast.DictComp):
+                    return True
+                if isinstance(a, ast.Call) and ((isinstance(a.func, ast.Attribute) and a.func.attr == "copy") or norm(a.func) == "dict"):
+                    return True
+                if isinstance(a, ast.BinOp) and isinstance(a.op, ast.BitOr):
+                    return True  # `d1 | d2` builds a new dict
+                if isinstance(a, ast.Name):
+                    if a.id in scope.params:
+                        return False
+                    ds = c05._assignments_to(scope, a.id)
+                    if ds and all(d[2] is None and d[1] is not None for d in ds):
+                        vs = {_fresh(scope, d[1], depth + 1) for d in ds}
+                        return vs.pop() if len(vs) == 1 else None
+                    return None
+                if isinstance(a, ast.Call) and depth < 3:
+                    t_ = m.resolve_call(scope, a)
+                    if t_.kind == "func" and not t_.target.module.short.startswith("_typeguard"):
+                        vs = {_fresh(t_.target, rt.value, depth + 1) for rt in walk_scope(t_.target.node) if isinstance(rt, ast.Return)}
+                        return vs.pop() if len(vs) == 1 else None
+                    return None
+                if isinstance(a, (ast.Attribute, ast.Subscript)):
+                    return None
+                return None
+
+            def _stale(scope, a):
+                """A copy is only as good as the moment it was taken: `<name>` bound to `<memo parameter>.copy()` outside the loop the eval runs in
+                (or lazily, once, under `if <name> is None`) while that loop goes on binding axes into the parameter -> the expression does not see
+                the sizes bound by the axes before it.  Returns (memo parameter, definition) or None."""
+                if not isinstance(a, ast.Name) or a.id in scope.params:
+                    return None
+                parents = {}
+                for p_ in ast.walk(scope.node):
+                    for c_ in ast.iter_child_nodes(p_):
+                        parents[id(c_)] = p_
+
+                def loops_of(n):
+                    out = []
+                    while id(n) in parents:
+                        n = parents[id(n)]
+                        if isinstance(n, (ast.For, ast.While)):
+                            out.append(n)
+                    return out
+
+                eval_loops = loops_of(c)
+                if not eval_loops:
+                    return None
+                inner = eval_loops[0]
+                for st, val, _ in c05._assignments_to(scope, a.id):
+                    src = None
+                    if isinstance(val, ast.Call) and isinstance(val.func, ast.Attribute) and val.func.attr == "copy" and isinstance(val.func.value, ast.Name):
+                        src = val.func.value.id
+                    elif isinstance(val, ast.Call) and norm(val.func) == "dict" and len(val.args) == 1 and isinstance(val.args[0], ast.Name):
+                        src = val.args[0].id
+                    if src is None or src not in scope.params:
+                        continue
+                    writes = [w for w in ast.walk(inner) if isinstance(w, ast.Subscript) and isinstance(w.ctx, ast.Store) and isinstance(w.value, ast.Name) and w.value.id == src]
+                    if not writes:
+                        continue  # nothing is bound into it while the loop runs: an earlier copy is as good as a later one
+                    once = False
+                    q_ = st
+                    while id(q_) in parents and parents[id(q_)] is not inner:
+                        q_ = parents[id(q_)]
+                        if isinstance(q_, ast.If):
+                            # a once-guard: the test reads a local that the guarded block itself binds (`if x is None: x = ..; y = ..`)
+                            bound = {t_.id for b_ in q_.body for s_ in ast.walk(b_) if isinstance(s_, ast.Assign) for t_ in s_.targets if isinstance(t_, ast.Name)}
+                            if any(isinstance(x_, ast.Name) and x_.id in bound for x_ in ast.walk(q_.test)):
+                                once = True
+                    if inner not in loops_of(st) or once:
+                        return src, st
+                return None
+
             for a in c.args[1:]:
-                fresh = (isinstance(a, ast.Call) and ((isinstance(a.func, ast.Attribute) and a.func.attr == "copy") or norm(a.func) == "dict")) or isinstance(a, ast.Dict)
+                stale = _stale(f, a)
+                if stale is not None:
+                    ctx.bad(tag, f, c, f"eval is handed `{norm(a)}`, a copy of `{stale[0]}` taken once (`{short(stale[1], 50)}`) while the loop goes on binding axes into `{stale[0]}`: "
+                            "a symbolic axis does not see the sizes bound by the axes before it in the same annotation", construct=f"stale eval namespace {norm(a)}")
+                    continue
+                fresh = _fresh(f, a)
+                if fresh is None and isinstance(a, ast.Name) and {_fresh(f, d[1]) for d in c05._assignments_to(f, a.id) if d[1] is not None and not (isinstance(d[1], ast.Constant) and d[1].value is None)} == {True}:
+                    fresh = True  # `x = None` placeholder + lazily made copy (of something the loop does not write)
+                if fresh is None:
+                    raise AnalysisError(f"{tag}: whether the namespace `{norm(a)}` handed to eval in {f.qualname} is a fresh dict could not be read")
                 if not fresh:
                     ctx.bad(tag, f, c, f"eval is handed `{norm(a)}` itself, not a copy: eval plants `__builtins__` into it, so the live bindings (and print_bindings / "
                             "error messages) gain a spurious entry")
